@@ -164,7 +164,7 @@ impl Drop for EventSender<'_> {
             kind: EventKind::Done,
             co: None,
         });
-        self.cqueue.cnt.fetch_sub(1, Ordering::Relaxed);
+        self.cqueue.cnt.fetch_sub(1, Ordering::Release);
         if let Some(w) = self.cqueue.to_wake.take() {
             w.unpark();
         }
@@ -271,8 +271,15 @@ impl Cqueue {
             match self.ev_queue.pop() {
                 Some(mut ev) => run_ev!(ev),
                 None => {
-                    if self.cnt.load(Ordering::Relaxed) == 0 {
-                        return Err(PollError::Finished);
+                    if self.cnt.load(Ordering::Acquire) == 0 {
+                        // a select coroutine pushes its Done event before it is
+                        // counted out: look again, the event may have arrived
+                        // after the pop above, and only its processing waits
+                        // for the coroutine to really terminate
+                        match self.ev_queue.pop() {
+                            Some(mut ev) => run_ev!(ev),
+                            None => return Err(PollError::Finished),
+                        }
                     }
                 }
             }
